@@ -151,7 +151,7 @@ def h_two_batches(ctx, program):
 
 
 HARNESSES = []
-QUICK = ('chain', 'two_params_named', 'shared_constant', 'two_summaries', 'summary_of_prior', 'summary_mixes_prior',
+QUICK = ('disc_of_disc_stochastic', 'disc_of_disc_deterministic', 'chain', 'two_params_named', 'shared_constant', 'two_summaries', 'summary_of_prior', 'summary_mixes_prior',
          'dup_parent', 'dup_parent_named')
 for pname in PROGRAMS:
     if pname in ('indep_priors', 'fork_sims'):
